@@ -825,3 +825,127 @@ Proof.
     destruct v; try discriminate. apply opid_eqb_spec in H2. subst. eexists. reflexivity.
   - intros [H1 [m ->]]. rewrite H1. reflexivity.
 Qed.
+
+Theorem diff_roundtrip e v1 v2 v : wf_view v1 -> wf_view v2 ->
+  apply_patches e (diff v1 v2) v1 = Some v -> apply_patches e (diff v2 v1) v = Some v1.
+Proof.
+  intros W1 W2 H. rewrite (diff_apply e v1 v2 W1 W2) in H. inversion H; subst. apply diff_apply; assumption.
+Qed.
+
+(* ------------------------------------------------------------------ frame *)
+Lemma nth_error_set {A} (y : A) : forall l n j, (n < length l)%nat ->
+  nth_error (firstn n l ++ y :: skipn (S n) l) j = if (j =? n)%nat then Some y else nth_error l j.
+Proof.
+  induction l as [|x t IH]; intros n j Hn; [cbn in Hn; lia|].
+  destruct n as [|n].
+  - cbn [firstn skipn app]. destruct j; reflexivity.
+  - cbn [firstn app]. change (skipn (S (S n)) (x :: t)) with (skipn (S n) t).
+    destruct j as [|j]; [reflexivity|]. cbn [nth_error]. cbn [length] in Hn.
+    rewrite IH by lia. reflexivity.
+Qed.
+
+Lemma set_at_length {A} i (y : A) l : i < N.of_nat (length l) -> length (set_at i y l) = length l.
+Proof.
+  intros H. unfold set_at. rewrite app_length, firstn_length_le by lia. cbn [length].
+  rewrite skipn_length. lia.
+Qed.
+
+Lemma get_at_lt {A} i (l : list A) x : get_at i l = Some x -> i < N.of_nat (length l).
+Proof. unfold get_at. destruct (N.ltb_spec i (N.of_nat (length l))); [auto|discriminate]. Qed.
+
+Lemma get_at_set_at {A} i j (y : A) l : i < N.of_nat (length l) ->
+  get_at j (set_at i y l) = if j =? i then Some y else get_at j l.
+Proof.
+  intros H. unfold get_at. rewrite set_at_length by exact H. unfold set_at.
+  destruct (N.ltb_spec j (N.of_nat (length l))) as [Hj|Hj].
+  - rewrite nth_error_set by lia.
+    destruct (N.eqb_spec j i) as [->|Hne].
+    + rewrite Nat.eqb_refl. reflexivity.
+    + destruct (Nat.eqb_spec (N.to_nat j) (N.to_nat i)) as [E|_]; [|reflexivity].
+      apply Nnat.N2Nat.inj in E. contradiction.
+  - destruct (N.eqb_spec j i) as [->|_]; [lia|reflexivity].
+Qed.
+
+Lemma apply_at_frame e : forall pre path obj a v v' f x y q' path',
+  apply_at e path obj a v = Some v' ->
+  map snd path = pre ++ y :: path' -> x <> y ->
+  subentry (v', f) (pre ++ x :: q') = subentry (v, f) (pre ++ x :: q').
+Proof.
+  induction pre as [|p0 pre IH]; intros path obj a v v' f x y q' path' H Hp Hne.
+  - destruct path as [|[pid pr] rest]; [discriminate|]. cbn [map snd app] in Hp.
+    inversion Hp; subst pr. clear Hp. cbn [apply_at] in H.
+    destruct (id_is v pid); [|discriminate].
+    destruct v as [s|id m|id l|id u]; destruct y as [kb|ib]; try discriminate.
+    + destruct (mlookup kb m) as [[c fl]|] eqn:L; [|discriminate].
+      destruct (apply_at e rest obj a c) as [c'|]; [|discriminate]. inversion H; subst v'.
+      cbn [app subentry fst]. destruct x as [ka|ia]; [|reflexivity].
+      rewrite mlookup_mset. assert (E : keqb ka kb = false) by (apply keqb_false; congruence).
+      rewrite E. reflexivity.
+    + destruct (get_at ib l) as [[c fl]|] eqn:L; [|discriminate].
+      destruct (apply_at e rest obj a c) as [c'|]; [|discriminate]. inversion H; subst v'.
+      cbn [app subentry fst]. destruct x as [ka|ia]; [reflexivity|].
+      rewrite get_at_set_at by (eapply get_at_lt, L).
+      destruct (N.eqb_spec ia ib) as [->|_]; [congruence|reflexivity].
+    + inversion H; subst. reflexivity.
+  - destruct path as [|[pid pr] rest]; [discriminate|]. cbn [map snd app] in Hp.
+    inversion Hp as [[E1 E2]]; subst pr. cbn [apply_at] in H.
+    destruct (id_is v pid); [|discriminate].
+    destruct v as [s|id m|id l|id u]; destruct p0 as [k|i]; try discriminate.
+    + destruct (mlookup k m) as [[c fl]|] eqn:L; [|discriminate].
+      destruct (apply_at e rest obj a c) as [c'|] eqn:A; [|discriminate]. inversion H; subst v'.
+      cbn [app subentry fst]. rewrite mlookup_mset, keqb_refl, L.
+      eapply IH; eassumption.
+    + destruct (get_at i l) as [[c fl]|] eqn:L; [|discriminate].
+      destruct (apply_at e rest obj a c) as [c'|] eqn:A; [|discriminate]. inversion H; subst v'.
+      cbn [app subentry fst]. rewrite get_at_set_at by (eapply get_at_lt, L). rewrite N.eqb_refl, L.
+      eapply IH; eassumption.
+    + inversion H; subst. reflexivity.
+Qed.
+
+Theorem apply_patch_frame e v p v' q :
+  apply_patch e v p = Some v' -> diverges q (map snd (p_path p)) -> subtree v' q = subtree v q.
+Proof.
+  intros H [pre [x [y [q' [path' [-> [Hp Hne]]]]]]]. unfold subtree.
+  eapply apply_at_frame; eassumption.
+Qed.
+
+Lemma apply_action_shell e v a v' : apply_action e v a = Some v' -> same_shell v v' = true.
+Proof.
+  destruct v as [s|id m|id l|id u]; cbn [apply_action]; [discriminate| | |].
+  - destruct a as [k pv c|i pv c|i vs|i x|[k|i] z|[k|i]|k|i n|ms]; try discriminate.
+    + intros H; inversion H; apply opid_eqb_refl.
+    + destruct (mlookup k m) as [en|]; [|discriminate]. destruct (inc_entry z en); [|discriminate].
+      intros H; inversion H; apply opid_eqb_refl.
+    + destruct (mlookup k m) as [en|]; [|discriminate]. intros H; inversion H; apply opid_eqb_refl.
+    + intros H; inversion H; apply opid_eqb_refl.
+  - destruct a as [k pv c|i pv c|i vs|i x|[k|i] z|[k|i]|k|i n|ms]; try discriminate.
+    + destruct (get_at i l); [|discriminate]. intros H; inversion H; apply opid_eqb_refl.
+    + destruct (insert_at i (map new_entry vs) l); [|discriminate]. intros H; inversion H; apply opid_eqb_refl.
+    + destruct (get_at i l) as [en|]; [|discriminate]. destruct (inc_entry z en); [|discriminate].
+      intros H; inversion H; apply opid_eqb_refl.
+    + destruct (get_at i l) as [en|]; [|discriminate]. intros H; inversion H; apply opid_eqb_refl.
+    + destruct (delete_at i n l); [|discriminate]. intros H; inversion H; apply opid_eqb_refl.
+    + intros H; inversion H; apply opid_eqb_refl.
+  - destruct a as [k pv c|i pv c|i vs|i x|[k|i] z|[k|i]|k|i n|ms]; try discriminate.
+    + destruct (delete_at i 1 u) as [u1|]; [|discriminate].
+      destruct (insert_at i (pv_units e pv) u1); [|discriminate]. intros H; inversion H; apply opid_eqb_refl.
+    + destruct (insert_at i _ u); [|discriminate]. intros H; inversion H; apply opid_eqb_refl.
+    + destruct (insert_at i x u); [|discriminate]. intros H; inversion H; apply opid_eqb_refl.
+    + destruct (delete_at i n u); [|discriminate]. intros H; inversion H; apply opid_eqb_refl.
+    + intros H; inversion H; apply opid_eqb_refl.
+Qed.
+
+Theorem apply_patch_shell e v p v' : apply_patch e v p = Some v' -> same_shell v v' = true.
+Proof.
+  unfold apply_patch. destruct (p_path p) as [|[pid pr] rest]; cbn [apply_at].
+  - destruct (id_is v (p_obj p)); [apply apply_action_shell|discriminate].
+  - destruct (id_is v pid); [|discriminate].
+    destruct v as [s|id m|id l|id u]; destruct pr as [k|i]; try discriminate.
+    + destruct (mlookup k m) as [[c f]|]; [|discriminate].
+      destruct (apply_at e rest (p_obj p) (p_action p) c); [|discriminate].
+      intros H; inversion H; apply opid_eqb_refl.
+    + destruct (get_at i l) as [[c f]|]; [|discriminate].
+      destruct (apply_at e rest (p_obj p) (p_action p) c); [|discriminate].
+      intros H; inversion H; apply opid_eqb_refl.
+    + intros H; inversion H; apply opid_eqb_refl.
+Qed.
